@@ -1147,6 +1147,8 @@ class Engine:
                 raise Unsupported("havoc of a concrete list")
         elif isinstance(o, _GenOut):
             o.reset(self)
+        elif isinstance(o, Obj) and hasattr(o.cls, "py_havoc"):
+            o.cls.py_havoc(self, o)
         else:
             raise Unsupported("havoc of %r" % (o,))
 
